@@ -38,7 +38,8 @@ FAMS = ["single:conv@8", "single:dw@8", "single:maxpool@8", "single:avgpool@8", 
         "single:exp@8", "single:rsqrt@8", "rewrite_patterns", "rewrite_patterns",
         "single:conv_groups@8", "single:conv_groups@8", "single:pool_global_stride@8",
         "single:ew_self@8", "single:concat_dup@8", "single:ew_bcast2@8", "single:split_partial@8", "single:reshape_fan@8", "cpu_fan", "cpu_fan", "single:resize_hp16@8",
-        "branchy", "ew_dag", "multi_input", "split_conv", "mixed_cpu", "multi_custom", "one_channel_tail"]
+        "branchy", "ew_dag", "multi_input", "split_conv", "mixed_cpu", "multi_custom", "one_channel_tail",
+        "unsupported:reshape_requant", "unsupported:squeeze_requant", "single:mean_big@8"]
 if os.environ.get("VERIF_C01_FAMS"):        # development aid: restrict the generated part to some families
     FAMS = os.environ["VERIF_C01_FAMS"].split(",")
 
